@@ -13,8 +13,12 @@ same forest is (a) recorded by the real libmcount with the option and (b) record
 unfiltered, written as a data directory and replayed with the option; both are also
 compared with their Lean models.
 Findings: F-C07-NOLIBCALL and S4 (-t boundary `>` vs `>=`) are fixed in /repo; a tree that
-behaves like their pre-fix models is reported again.  F-C07-TRACEOFF-FLUSH (record side, open)
-is reported as KNOWN-FINDING when its shape is observed."""
+behaves like their pre-fix models is reported again.  F-C07-TRACEOFF-FLUSH (record side: a
+trace_off trigger in a function the filters reject lost the pending ENTRY records of its callers):
+the hook model has the repaired behaviour (`f7fixed`, the flush at the TRACE_OFF update of
+mcount_entry_filter_check); a tree whose hooks behave like the model with f7fixed=0 is reported —
+KNOWN-FINDING while the entry is listed open in known_findings.json, VIOLATION with the concrete
+case otherwise.  On the directed cases record time must equal replay time."""
 import json
 import os
 import re
@@ -770,21 +774,27 @@ def record_vs_replay(ctx, uft, root, nforest, boundary_ok=True):
     sizes = mcheck.sym_sizes(exe)
     rng = ctx.rng
     cases = []
-    # directed: f0{ f1{ f2{ f3{ f4 }}} f5{ f6 } f1{ f2{ f3{ f4 }}} } with -D n -T f3@trace_off -T f5@trace_on
-    # (n = 3: the trace_off function is itself beyond the depth: finding F-C07-TRACEOFF-FLUSH; n = 4: it is not)
+    # directed: f0{ f1{ f2{ f3{ f4 }}} f5{ f6 } f1{ f2{ f3{ f4 }}} } with -T f3@trace_off -T f5@trace_on and filters that
+    # do (-D 3, -D 2, depth= trigger, -F f1 -D 2) or do not (-D 4, none) reject the trace_off function f3 itself.  Rejected:
+    # finding F-C07-TRACEOFF-FLUSH (repaired: the pending ENTRY records of f0 f1 f2 are written at the TRACE_OFF update).
+    # On all of them recording with the options must equal replaying the unfiltered recording with the options.
     dops, now = [], 1000
     for fn in ONOFF_FNS:
         now += 10
         dops += [("T", now), (("E", fn) if fn is not None else ("X",))]
+    sw = [(3, [("trace_off", None)]), (5, [("trace_on", None)])]
     for kind in ("pg", "cyg"):
         script = mcgen.script_lines(dops, lambda fn, k, kind=kind: kind)
         fid = "onoff-" + kind
         cases.append({"opts": mcgen.Opts(), "script": script, "kind": kind, "forest": fid, "role": "plain", "durs": set()})
-        for dn in (3, 4):
+        for dn, F, extra in ((3, [], []), (4, [], []), (2, [], []), (None, [], []), (None, [], [(1, [("depth", 2)])]),
+                             (2, [1], [])):
             o = mcgen.Opts()
             o.D = dn
-            o.T = [(3, [("trace_off", None)]), (5, [("trace_on", None)])]
-            cases.append({"opts": o, "script": script, "kind": kind, "forest": fid, "role": "traceoff", "durs": set()})
+            o.F = list(F)
+            o.T = [(fn, list(acts)) for fn, acts in sw + extra]
+            cases.append({"opts": o, "script": script, "kind": kind, "forest": fid, "role": "traceoff", "durs": set(),
+                          "directed": True})
     for i in range(nforest):
         ops = mcgen.rand_forest(rng, max_calls=rng.choice([8, 20, 40]), max_depth=rng.choice([3, 5, 7]), zero_dur=0.1)
         durs = set()
@@ -827,20 +837,36 @@ def record_vs_replay(ctx, uft, root, nforest, boundary_ok=True):
             o.T = [(fn, acts) for fn, acts in o.T if acts]
             if o.T:
                 cases.append({"opts": o, "script": script, "kind": kind, "forest": i, "role": "traceoff", "durs": durs})
+        # the proved class of c07_record_eq_replay_traceoff: -F / -N / -D with trace_off triggers on functions that are not
+        # -N functions, no trace_on, no -t: recording with the options must equal replaying with the options
+        if i % 3 != 0:
+            present = sorted({op[1] for op in ops if op[0] == "E"})
+            o = rec_opts(rng, durs, boundary_ok)
+            o.t = None
+            offs = [f for f in rng.sample(present, min(len(present), rng.randint(1, 2))) if f not in o.N]
+            o.T = [(f, [("trace_off", None)]) for f in offs]
+            if o.T:
+                cases.append({"opts": o, "script": script, "kind": kind, "forest": i, "role": "traceoff", "durs": durs,
+                              "directed": True, "proved_class": True})
     mcheck.run_cases(ctx, exe, sizes, cases)
     # where the hooks do not behave like the current hook model: do they behave like the model of the code before
     # the repair of S4 (exit hooks keep only calls that ran strictly longer than the threshold)?
+    # … or like the model of the code before the repair of F-C07-TRACEOFF-FLUSH (no flush of the pending ENTRY
+    # records at the TRACE_OFF update of mcount_entry_filter_check)?
     odd = [c for c in cases if c["impl_cmp"] != c["model_cmp"]]
     if odd:
-        ml, spans = [], []
-        for c in odd:
-            pre = ["RESET"] + mcgen.to_model(c["opts"], sizes, False)
-            pre[1] += " s4fixed=0"
-            spans.append((len(ml) + len(pre), len(c["script"])))
-            ml += pre + c["script"]
-        mo = C.run_model("Mcount", ml)
-        for c, (a, n) in zip(odd, spans):
-            c["matches_prefix_S4_hook_model"] = [mcheck.strip_obs(C.norm(x), False) for x in mo[a:a + n]] == c["impl_cmp"]
+        for token, key in ((" s4fixed=0", "matches_prefix_S4_hook_model"), (" f7fixed=0", "matches_prefix_F7_hook_model")):
+            ml, spans = [], []
+            for c in odd:
+                pre = ["RESET"] + mcgen.to_model(c["opts"], sizes, False)
+                pre[1] += token
+                spans.append((len(ml) + len(pre), len(c["script"])))
+                ml += pre + c["script"]
+            mo = C.run_model("Mcount", ml)
+            for c, (a, n) in zip(odd, spans):
+                c[key] = [mcheck.strip_obs(C.norm(x), False) for x in mo[a:a + n]] == c["impl_cmp"]
+    for c in cases:
+        c["model_setup"] = mcgen.to_model(c["opts"], sizes, False)
     # libmcount pre-allocates a second shmem buffer per thread that lib/h1.py does not know about: unlink it too
     for c in cases:
         for typ, payload in c["raw"]["msgs"]:
@@ -1270,37 +1296,50 @@ def run(ctx):
                 rvr["boundary_cases"] += 1
             if c["role"] == "traceoff":
                 rvr["trace_on_off_cases"] += 1
+                rvr["trace_off_proved_class_cases"] = rvr.get("trace_off_proved_class_cases", 0) + bool(c.get("proved_class"))
             if rc == 0 and rep == c["recorded"] and models_ok:
                 rvr["equal"] += 1
                 continue
-            if c["role"] == "traceoff" and rc == 0 and models_ok:
-                # trace_on / trace_off at record time is outside the proved class (c07_record_eq_replay is about
-                # -F/-N/-D/-t). Known difference on the real code: the lazily written ENTRY records of the open callers
-                # are lost when the function that switches tracing off is itself filtered out (depth, notrace),
-                # proposed_fixes/C07-TRACEOFF-FLUSH.diff; both sides match their models here, so this is counted, and
-                # reported as KNOWN-FINDING once listed
-                rvr["trace_on_off_differs"] += 1
-                it = iter(rep)
-                flush_shape = all(any(x == y for y in it) for x in c["recorded"]) and \
-                    all(t.startswith("E") for t in rep if t not in c["recorded"])
-                rvr["trace_on_off_lost_entries_shape"] = rvr.get("trace_on_off_lost_entries_shape", 0) + flush_shape
-                if flush_shape:
-                    if tof:
-                        C.known(ctx, tof[0], "F-C07-TRACEOFF-FLUSH record -T f@trace_off loses the ENTRY records of the open "
-                                             "callers when f itself is filtered out; replay with the same options shows them")
-                        continue
-                    # not (or no longer) listed as open: a plain failure of "same call tree as recording with that option"
-                    monitor_fail += 1
-                    if replays < 5:
-                        replays += 1
-                        C.violation(ctx, "rvr%d" % ji, {
-                            "kind": "property-violated-on-implementation", "finding": "F-C07-TRACEOFF-FLUSH",
-                            "what": "record with a trace_off trigger loses the ENTRY records of the open callers",
-                            "env": mcgen.to_env(c["opts"]), "hook": c["kind"], "script": c["script"][:300],
-                            "replay_args": cli_args(to_ropts(c["opts"])), "recorded": c["recorded"][:30], "replayed": rep[:30]})
+            f7_shape = (c["role"] == "traceoff" and c["impl_cmp"] != c["model_cmp"] and
+                        c.get("matches_prefix_F7_hook_model", False) and rc == 0 and rep == c["replay_model"])
+            if f7_shape:
+                # finding F-C07-TRACEOFF-FLUSH: libmcount behaves like the hook model with f7fixed=0 (and not like the repaired
+                # one): a trace_off trigger that fires in a function rejected by the filters (or while this thread's
+                # enable_cached is stale) does not write the pending ENTRY records of the open callers
+                rvr["hooks_match_pre_F7_model"] = rvr.get("hooks_match_pre_F7_model", 0) + 1
+                rvr["hooks_match_pre_F7_model_and_record_differs_from_replay"] = \
+                    rvr.get("hooks_match_pre_F7_model_and_record_differs_from_replay", 0) + (rep != c["recorded"])
+                if tof:
+                    C.known(ctx, tof[0], "F-C07-TRACEOFF-FLUSH record -T f@trace_off loses the ENTRY records of the open "
+                                         "callers when f itself is filtered out; replay with the same options shows them "
+                                         "(libmcount matches the hook model with f7fixed=0)")
                     continue
-                # any other difference under trace_on/trace_off: the two times implement the switch differently by
-                # construction (see ctx.assumptions); counted, first example kept in the evidence
+                # not (or no longer) listed as open: the repair was taken out again
+                monitor_fail += 1
+                if replays < 5:
+                    replays += 1
+                    first = next((i for i, (a, b) in enumerate(zip(c["impl_cmp"], c["model_cmp"])) if a != b), None)
+                    C.violation(ctx, "rvr%d" % ji, {
+                        "kind": "property-violated-on-implementation", "finding": "F-C07-TRACEOFF-FLUSH",
+                        "what": "record with a trace_off trigger on a function that the filters reject loses the ENTRY records "
+                                "of the open callers; replaying the unfiltered recording with the same options shows them",
+                        "implementation_matches_pre_fix_model": True, "pre_fix_model": "Mcount CFG f7fixed=0",
+                        "witness_theorem": "c07_prefix_traceoff_flush_witness",
+                        "theorem": "c07_record_eq_replay_traceoff / c07_traceoff_in_rejected_flushes / "
+                                   "c07_record_eq_replay_traceoff_directed",
+                        "proposed_fix": "proposed_fixes/C07-TRACEOFF-FLUSH.diff",
+                        "env": mcgen.to_env(c["opts"]), "hook": c["kind"], "script": c["script"][:300],
+                        "model_setup": c["model_setup"],
+                        "first_line_difference": None if first is None else {
+                            "line": first, "op": c["script"][first], "impl": c["impl_cmp"][first][-300:],
+                            "repaired_model": c["model_cmp"][first][-300:]},
+                        "replay_args": cli_args(to_ropts(c["opts"])), "recorded": c["recorded"][:30], "replayed": rep[:30]})
+                continue
+            if c["role"] == "traceoff" and rc == 0 and models_ok and not c.get("directed"):
+                # random option sets with trace_on / trace_off at record time are outside the proved class
+                # (c07_record_eq_replay is about -F/-N/-D/-t): the two times implement the switch differently by
+                # construction (see ctx.assumptions); both sides match their models here; counted, first example kept
+                rvr["trace_on_off_differs"] += 1
                 rvr["trace_on_off_other_differences"] = rvr.get("trace_on_off_other_differences", 0) + 1
                 rvr.setdefault("trace_on_off_other_example", {"record_env": mcgen.to_env(c["opts"]),
                                                               "recorded": c["recorded"][:14], "replayed": rep[:14]})
@@ -1330,7 +1369,11 @@ def run(ctx):
                     "first_difference": {"index": k, "recorded": c["recorded"][k:k + 3], "replayed": rep[k:k + 3]},
                     "hook_model_agrees_with_libmcount": c["impl_cmp"] == c["model_cmp"],
                     "fstack_model_agrees_with_replay": rep == c["replay_model"],
-                    "theorem": "c07_record_eq_replay (witness of the pre-fix code: c07_time_boundary_witness)"},
+                    "model_setup": c["model_setup"], "directed_trace_off_case": bool(c.get("directed")),
+                    "theorem": ("c07_record_eq_replay_traceoff / c07_record_eq_replay_traceoff_directed / "
+                                "c07_traceoff_in_rejected_flushes (witness of the pre-fix code: "
+                                "c07_prefix_traceoff_flush_witness)") if c["role"] == "traceoff" else
+                               "c07_record_eq_replay (witness of the pre-fix code: c07_time_boundary_witness)"},
                             no_failing_input=not (models_ok or s4_shape))
     if proof_broken:
         C.violation(ctx, "proof", {"kind": "proof-obligation-broken", "problems": problems,
@@ -1356,19 +1399,27 @@ def run(ctx):
         "calls or are cut by -r (their 'remaining functions' accounting ignores the filters: C08/C15 territory)",
         "raw `uftrace dump` reads the task files without the look-ahead, so -t / time= / -C do not apply to it (modelled as coded, "
         "theorem c07_dumpraw_agrees has the hypothesis); it is compared with the other commands only without those options",
-        "record-vs-replay with trace_on/trace_off triggers is outside the proved class (c07_record_eq_replay: -F/-N/-D/-t). Directed "
-        "and random cases are run; both sides always have to match their Lean models. Differences of the shape 'replay shows "
-        "ENTRY records of open callers that record lost because the trace_off function was itself filtered out' are finding "
-        "F-C07-TRACEOFF-FLUSH (KNOWN-FINDING while listed open, VIOLATION otherwise; proposed_fixes/C07-TRACEOFF-FLUSH.diff). Other "
-        "differences follow from how the two times implement the switch and are counted (trace_on_off_other_differences), not "
+        "record-vs-replay with trace_on/trace_off triggers: the hook model has the repair of finding F-C07-TRACEOFF-FLUSH (Cfg.f7fixed: "
+        "the pending ENTRY records of the open callers are written at the TRACE_OFF update of mcount_entry_filter_check, so also when "
+        "the function that switches tracing off is itself rejected by the filters; theorems c07_traceoff_in_rejected_flushes, "
+        "c07_prefix_traceoff_flush_witness, c07_record_eq_replay_traceoff, c07_record_eq_replay_traceoff_directed). Both sides always have to match their Lean models; "
+        "a libmcount that matches the hook model with f7fixed=0 instead is reported as that finding (KNOWN-FINDING while it is listed "
+        "open in known_findings.json, VIOLATION with the concrete case otherwise). On the directed cases (f0{f1{f2{f3{f4}}} f5{f6} "
+        "f1{f2{f3{f4}}}} with -T f3@trace_off -T f5@trace_on and -D 2/3/4, none, f1@depth=2, -F f1 -D 2) the recorded stream must equal "
+        "the replayed one, and so it must for random option sets of the class of theorem c07_record_eq_replay_traceoff (-F/-N/-D "
+        "with trace_off triggers on functions that are not -N functions, no trace_on, no -t; both times show the documented "
+        "selection up to the first trace_off trigger that is reached). Other random option sets with trace switches are outside "
+        "the proved classes (c07_record_eq_replay: -F/-N/-D/-t); "
+        "their differences follow from how the two times implement the switch and are counted (trace_on_off_other_differences), not "
         "failed: (a) libmcount/mcount.c mcount_entry_filter_check() does filter.depth++ for every call, also while mcount_enabled is "
         "false (the frame is only tagged DISABLED later), whereas utils/fstack.c fstack_entry() returns at `!fstack_enabled` before "
         "`filter.depth--`, so calls entered while tracing is off use up the -D budget at record time only; (b) fstack_entry() "
         "returns at a FILTER_MODE_OUT match before it looks at TRACE_ON/TRACE_OFF, mcount_entry_filter_check() applies them, so a "
         "trace switch on a -N function works at record time only; (c) a frame entered while tracing was off is DISABLED for good "
-        "at record time (never written), while replay prints its EXIT once tracing is on again (fstack.c: 'don't set NORECORD "
-        "flag so that it can be printed when trace-on again'); doc/uftrace-record.md and uftrace-replay.md describe trace_on / "
-        "trace_off only as 'start / stop tracing' and do not define these combinations",
+        "at record time (its ENTRY is never written), while replay prints its EXIT once tracing is on again (fstack.c: 'don't set "
+        "NORECORD flag so that it can be printed when trace-on again'); (d) with -t the ENTRY records flushed at trace_off belong to "
+        "calls whose duration is not known yet, replay's look-ahead drops them if they turn out short; doc/uftrace-record.md and "
+        "uftrace-replay.md describe trace_on / trace_off only as 'start / stop tracing' and do not define these combinations",
         "record-vs-replay, -t boundary: finding S4 is repaired in /repo (both times keep a call that ran at least the threshold; "
         "theorem c07_record_eq_replay holds for every threshold, c07_time_boundary_witness shows the old behaviour). -t values equal "
         "to call durations are generated on purpose; a tree whose hooks behave like the pre-fix hook model (`>`) is reported as a "
@@ -1381,9 +1432,39 @@ def run(ctx):
     return C.finish(ctx)
 
 
+def replay_record_side(ctx, j):
+    """a record-vs-replay case (H1): run the stored hook script on the real libmcount of the current tree and on the
+    hook model, repaired (f7fixed=1, the default) and pre-fix (f7fixed=0)"""
+    ctx.snapshot()
+    exe, log = h1.build(ctx, "normal")
+    if not exe:
+        print("replay: harness build failed\n" + log[-2000:])
+        return 1
+    sizes = mcheck.sym_sizes(exe)
+    r = h1.run(ctx, exe, dict(j.get("env", {}), UFTRACE_BUFFER="1048576"), j["script"], 0)
+    impl = [mcheck.strip_obs(x, False) for x in mcheck.impl_lines(r, sizes, False)]
+    outs = {}
+    for tag, token in (("repaired (f7fixed=1)", ""), ("pre-fix (f7fixed=0)", " f7fixed=0")):
+        pre = ["RESET"] + list(j["model_setup"])
+        pre[1] += token
+        mo = C.run_model("Mcount", pre + j["script"])
+        outs[tag] = [mcheck.strip_obs(C.norm(x), False) for x in mo[len(pre):len(pre) + len(j["script"])]]
+    for tag, m in outs.items():
+        first = next((i for i, (a, b) in enumerate(zip(impl, m)) if a != b), None)
+        print("libmcount vs hook model %s: %s" % (tag, "equal" if impl == m else "differs at line %s (%s): impl %s / model %s" % (
+            first, j["script"][first] if first is not None else "-", impl[first][-200:] if first is not None else "-",
+            m[first][-200:] if first is not None else "-")))
+    print("recorded stream:", " ".join(mcheck.stream(impl)))
+    ok = impl == outs["repaired (f7fixed=1)"]
+    print("replay: %s" % ("libmcount matches the repaired hook model on the current tree" if ok else "reproduced"))
+    return 0 if ok else 1
+
+
 def replay(ctx, path):
     j = json.load(open(path))
     print(json.dumps(j, indent=1)[:6000])
+    if "case" not in j and "model_setup" in j and "script" in j:
+        return replay_record_side(ctx, j)
     if "case" not in j:
         return 0
     okm, log = ctx.make()
